@@ -74,7 +74,8 @@ var tokText = map[string]string{"ident": "abc", "int": "12", "float": "1.5", "ch
 	"else": "else", "for": "for", "in": "in", "import": "import", "error": "error", "immutable": "immutable", "+=": "+=", "==": "==", "<": "<"}
 
 var gapText = map[string]string{"newline": "\n", "linecomment": " // c\n", "blockcomment-nl": " /* a\n b */ ", "blockcomment-then-nl": " /* c */\n",
-	"eof": "", "spaces": "   ", "blockcomment-inline": " /* c */ "}
+	"eof": "", "spaces": "   ", "blockcomment-inline": " /* c */ ",
+	"blockcomment-eof": " /* c */", "spaces-eof": "  \t ", "linecomment-eof": " // c", "blockcomments-eof": " /* a */ /* b */  ", "crlf": "\r\n"}
 
 func goClassify(s string) (kind string, val constant.Value) {
 	var sc goscanner.Scanner
@@ -167,7 +168,7 @@ func syntaxHandle(raw []byte) map[string]interface{} {
 		return map[string]interface{}{"got": strings.ReplaceAll(got, " ", ""), "want": strings.Join(c.Full, "")}
 	case "semi":
 		src := tokText[c.Tc] + gapText[c.Gap]
-		if c.Gap != "eof" {
+		if !strings.HasSuffix(c.Gap, "eof") {
 			src += "z"
 		}
 		toks, lits, _ := scanAll(src)
